@@ -311,8 +311,10 @@ def main_check(prop: str, tier: str) -> int:
     seed = int(os.environ.get("VERIF_SEED", "0") or 0)
     mod = importlib.import_module(f"harness.props.{prop.lower()}")
     findings = load_findings().get(prop, [])
-    evidence_path = os.path.join(ROOT, "evidence", f"{prop}.json")
-    replay_dir = os.path.join(ROOT, "replays")
+    # meta-runs against scratch trees (seeded regressions, reverted fixes) redirect their output so that the
+    # evidence under /verif/evidence always comes from a run against /repo itself
+    evidence_path = os.path.join(os.environ.get("VERIF_EVIDENCE_DIR") or os.path.join(ROOT, "evidence"), f"{prop}.json")
+    replay_dir = os.environ.get("VERIF_REPLAY_DIR") or os.path.join(ROOT, "replays")
     proof_broken: List[str] = []
 
     ok, out = lake_build()
@@ -386,12 +388,19 @@ def main_check(prop: str, tier: str) -> int:
         try:
             drv = leandrv.Driver()
 
+            def msg_class(vs: List[str]) -> str:
+                return re.sub(r"-?\d+(\.\d+)?", "N", (vs or [""])[0])[:60]
+            want_class = msg_class(r.get("violations", []))
+
             def still(c: Dict[str, Any]) -> bool:
+                # the minimised input must fail in the same way (same leading message up to numbers): a shrink step
+                # must not slide into a different, possibly out-of-domain, failure
                 try:
                     if hasattr(mod, "wf") and not mod.wf(c):
                         return False
                     rr = run_one(mod, drv, c)
-                    return rr["status"] == "violation" and fmod.classify(prop, c, rr["violations"], findings) is None
+                    return (rr["status"] == "violation" and msg_class(rr["violations"]) == want_class
+                            and fmod.classify(prop, c, rr["violations"], findings) is None)
                 except Exception:
                     return False
             small = shrink(mod, drv, case, still) if getattr(mod, "SHRINK", False) else case
